@@ -148,7 +148,7 @@ func CmpTotal(a, b any) Ordering {
 	return CmpEqual
 }
 
-var typeOfInt, typeOfMap uintptr
+var typeOfInt, typeOfMap, typeOfList uintptr
 
 func typeOf(x any) uintptr {
 	switch x.(type) {
@@ -158,6 +158,10 @@ func typeOf(x any) uintptr {
 	if IsFieldMap(x) {
 		return typeOfMap
 	}
+	// A list and a slice of a list have different Go types.
+	if _, ok := x.(List); ok && typeOfList != 0 {
+		return typeOfList
+	}
 	// The first word of an empty interface is a pointer to the type descriptor.
 	return *(*uintptr)(unsafe.Pointer(&x))
 }
@@ -165,4 +169,5 @@ func typeOf(x any) uintptr {
 func init() {
 	typeOfInt = typeOf(0)
 	typeOfMap = typeOf(EmptyMap)
+	typeOfList = typeOf(EmptyList)
 }
